@@ -2,6 +2,7 @@ import QclibModel.Proofs.SchmidtIndex
 import QclibModel.Proofs.SchmidtRank
 import QclibModel.Proofs.SchmidtAlg
 import QclibModel.Proofs.SchmidtOptimalState
+import QclibModel.Proofs.SchmidtRankSrc
 /-
   C07 — low-rank preparation yields the normalised truncation of the Schmidt decomposition to
   `r'` terms, `r'` the least power of two `≥ min(r, Schmidt rank)`.   (PARTIAL)
@@ -34,6 +35,26 @@ import QclibModel.Proofs.SchmidtOptimalState
 -/
 namespace Qclib
 open Qclib.Schmidt
+
+/-- **C07 (source tie, rank rule).**  The rank `low_rank_approximation` returns, as re-translated on
+every run from the current source of `qclib/entanglement.py` (`Gen/SchmidtRank.lean`: `_effective_rank`
+with its `10**-7` threshold as the exact binary64 value `pyThreshold`, then the cap by the requested
+rank and `int(2 ** ceil(log2(·)))`), is the hand model `rankRule (effRank …)` that `C07_rank_rule`
+speaks about — for every requested rank and every list of singular values with at least one above the
+threshold (otherwise Python raises and the model says `none`).  Same generated module as
+`C09_rank_src`; an edit of the threshold, the cap or the rounding breaks this proof. -/
+theorem C07_rank_src (lowRank : Int) (s : List Rat) (h : effRank pyThreshold s ≠ 0) :
+    rankRule lowRank (effRank pyThreshold s)
+      = some (Gen.SchmidtRank.low_rank_rank lowRank s).toNat := by
+  have := rankRule_src lowRank s h
+  cases hr : rankRule lowRank (effRank pyThreshold s) with
+  | none => rw [hr] at this; simp at this
+  | some r =>
+    rw [hr] at this
+    simp only [Option.map_some, Option.some.injEq] at this
+    rw [← this]; simp
+
+example : effRank pyThreshold [1, 1/2, 1/4] ≠ 0 := by decide
 
 /-- **C07 (rank rule).**  For a requested rank `r : ℕ` and `eff` singular values above the
 threshold, `low_rank_approximation` returns `r'` = the least power of two `≥ m`, where `m = eff` if
